@@ -20,7 +20,8 @@ Inductive routine :=
 | RRpropDense (p : rp_params (A := float))
 | RGD (p : gd_params (A := float))
 | RLS (hook cons : bool) (alpha1 : float) (maxEval : Z)
-| RBfgs (p : bf_params (A := float)).
+| RBfgs (p : bf_params (A := float))
+| RAdam (p : ad_params (A := float)).
 
 Record case := mkCase {
   c_routine : routine;
@@ -104,6 +105,7 @@ Definition run_case (c : case) : outcome (A := float) * trace (A := float) :=
   | RLS hk cs a1 me =>
       let r := line_search_run NumF KF F HK CS hk cs fuel a1 me in (ls_to_outcome (fst r), snd r)
   | RBfgs p => bfgs NumF KF F HK CS p fuel (c_x0 c)
+  | RAdam p => adam_dense NumF F HK CS p fuel (c_x0 c)
   end.
 
 Definition check (c : case) : bool :=
